@@ -12,6 +12,7 @@ A world (JSON-able dict):
                         bundle (two modules, the first importing from the second)
   symerr     [m...]  the symbol-table generator raises PySmiSemanticError for m
   generr     [m...]  the code generator raises PySmiCodegenError for m
+  emptygen   [m...]  the code generator returns an empty text for m (as the null code generator does)
   searchers  list of {'honours_rebuild': bool, 'ans': {m: 'fresh' | 'absent' | 'error' | 'normal'}}
   borrowers  list of {'texts': bool, 'ans': {m: 'has' | 'absent' | 'error'}}
   wrerr      [m...]  the writer raises PySmiWriterError for m
@@ -55,8 +56,33 @@ def module_text(world, m, variant=0, name=None):
     return '\n'.join(lines)
 
 
+def text_kind(world, s, m):
+    """The kind of text source s holds under the file name m: world['text'][m + str(s)] overrides world['text'][m]."""
+    t = world.get('text', {})
+    return t.get('%s%d' % (m, s), t.get(m, 'healthy'))
+
+
+BROKEN_LINE = 'x%s OBJECT IDENTIFIER ::= { nowhereDefined 1 }'
+
+
+def broken_text(world, m, variant=0):
+    """m's text with its own node hung below a parent nobody defines: parses, the symbol table cannot be built."""
+    good = module_text(world, m, variant)
+    lines = good.split('\n')
+    at = [i for i, ln in enumerate(lines) if ln.startswith('x%s OBJECT IDENTIFIER' % m)][0]
+    lines[at] = BROKEN_LINE % m
+    return '\n'.join(lines)
+
+
+def mate_text(m):
+    return '%sX DEFINITIONS ::= BEGIN\nw%s OBJECT IDENTIFIER ::= { 1 3 6 1 4 1 5%d }\nEND\n' % (m, m, USER.index(m))
+
+
+MATE_VARIANT = 7   # the copy of another user module that travels in a 'plus<U>' file carries this variant number
+
+
 def source_text(world, s, m):
-    kind = world.get('text', {}).get(m, 'healthy')
+    kind = text_kind(world, s, m)
     variant = world.get('variant', {}).get('%s%d' % (m, s), 0)
     good = module_text(world, m, variant)
     if kind == 'healthy':
@@ -84,29 +110,73 @@ def source_text(world, s, m):
         return good.replace('IMPORTS ', 'IMPORTS nosuchSymbol FROM SNMPv2-TC\n    ', 1).replace(
             'END', 'z%s OBJECT IDENTIFIER ::= { nosuchSymbol 1 }\nEND' % m)
     if kind == 'twomods':
-        return good + '%sX DEFINITIONS ::= BEGIN\nw%s OBJECT IDENTIFIER ::= { 1 3 6 1 4 1 5%d }\nEND\n' % (m, m, USER.index(m))
+        return good + mate_text(m)
     if kind == 'bundle':
         # a vendor file holding two modules, the first importing from the second BY ITS MODULE NAME: that name is queued for
         # look-up although no source has a file called like it - the module is already there
-        return good.replace('IMPORTS ', 'IMPORTS w%s FROM %sX\n    ' % (m, m), 1) + \
-            '%sX DEFINITIONS ::= BEGIN\nw%s OBJECT IDENTIFIER ::= { 1 3 6 1 4 1 5%d }\nEND\n' % (m, m, USER.index(m))
+        return good.replace('IMPORTS ', 'IMPORTS w%s FROM %sX\n    ' % (m, m), 1) + mate_text(m)
     if kind == 'misnamed':
         return module_text(world, m, variant, name=m + 'REAL')
+    # --- files holding a module whose symbol table cannot be built (really: an OID parent nobody defines) next to others
+    if kind == 'brokenfirst':
+        return broken_text(world, m, variant) + mate_text(m)
+    if kind == 'brokenlast':
+        return mate_text(m) + broken_text(world, m, variant)
+    if kind == 'copies-bs':
+        return broken_text(world, m, variant) + good      # a broken copy of m followed by a sound one
+    if kind == 'copies-sb':
+        return good + broken_text(world, m, variant)
+    if kind.startswith('plus'):
+        # m followed by a copy of ANOTHER user module (marked by its variant number)
+        return good + module_text(world, kind[4:], MATE_VARIANT)
+    if kind.startswith('brokenplus'):
+        return good + broken_text(world, kind[10:], MATE_VARIANT)
     raise ValueError(kind)
 
 
-def file_modules(world, m):
-    """Canonical names of the modules a healthy-enough file for m holds; None if the text does not parse."""
-    kind = world.get('text', {}).get(m, 'healthy')
+def file_entries(world, s, m):
+    """[(canonical module name, symbol table can be built, variant)] of the file source s holds under the name m, in file order;
+    None if the text does not parse."""
+    kind = text_kind(world, s, m)
+    v = world.get('variant', {}).get('%s%d' % (m, s), 0)
     if kind in ('lexerr', 'synerr', 'truncated'):
         return None
     if kind in ('empty', 'comment'):
         return []
+    sym = world.get('symerr', [])
     if kind in ('twomods', 'bundle'):
-        return [m, m + 'X']
-    if kind == 'misnamed':
-        return [m + 'REAL']
-    return [m]
+        out = [(m, True, v), (m + 'X', True, 0)]
+    elif kind == 'misnamed':
+        out = [(m + 'REAL', True, v)]
+    elif kind in ('dupsym', 'unktype'):
+        out = [(m, False, v)]
+    elif kind == 'brokenfirst':
+        out = [(m, False, v), (m + 'X', True, 0)]
+    elif kind == 'brokenlast':
+        out = [(m + 'X', True, 0), (m, False, v)]
+    elif kind == 'copies-bs':
+        out = [(m, False, v), (m, True, v)]
+    elif kind == 'copies-sb':
+        out = [(m, True, v), (m, False, v)]
+    elif kind.startswith('brokenplus'):
+        out = [(m, True, v), (kind[10:], False, MATE_VARIANT)]
+    elif kind.startswith('plus'):
+        out = [(m, True, v), (kind[4:], True, MATE_VARIANT)]
+    else:
+        out = [(m, True, v)]
+    return [(c, ok and c not in sym, var) for c, ok, var in out]
+
+
+def file_modules(world, m, s=0):
+    """Canonical names of the modules a healthy-enough file for m holds; None if the text does not parse."""
+    ents = file_entries(world, s, m)
+    if ents is None:
+        return None
+    out = []
+    for c, ok, var in ents:
+        if c not in out:
+            out.append(c)
+    return out
 
 
 class Log(list):
@@ -185,6 +255,8 @@ class Codegen(JsonCodeGen):
             self.log.injected[ast[0]] = self.log.injected.get(ast[0], []) + [exc]
             raise exc
         info, data = JsonCodeGen.genCode(self, ast, symbolTable, **kwargs)
+        if ast[0] in self.world.get('emptygen', []):
+            data = ''   # a generator may have nothing to say about a module (the null code generator): that is its text
         self.produced[ast[0]] = data
         return info, data
 
@@ -226,6 +298,10 @@ class BorrowReader(object):
     def getData(self, mibname, **options):
         self.log.append(('borrow', self.idx, mibname, bool(options.get('genTexts'))))
         ans = self.spec.get('ans', {}).get(mibname, 'absent')
+        if ans == 'hasempty':
+            # an empty pre-transformed copy is a copy
+            return MibInfo(path='borrow%d://%s' % (self.idx, mibname), file=mibname + '.json', name=mibname,
+                           mtime=self.spec.get('mtime', {}).get(mibname, BORROWED_MTIME)), ''
         if ans == 'has':
             return MibInfo(path='borrow%d://%s' % (self.idx, mibname), file=mibname + '.json', name=mibname,
                            mtime=self.spec.get('mtime', {}).get(mibname, BORROWED_MTIME)), \
@@ -343,6 +419,8 @@ def reference(world):
     todo = list(requested)
     seen = set()
     parsed = {}        # canonical name -> requested-name (alias)
+    variant_of = {}    # canonical name -> variant number of the copy that counts
+    kind_of = {}       # canonical name -> kind of the text it came in
     failed = {}        # name -> set of allowed statuses ('failed' / 'missing')
     requested_canon = set()
     order = []
@@ -365,52 +443,66 @@ def reference(world):
         if m in parsed:
             continue   # the module of that name has arrived already, inside a file known under another name
         if m not in users:
-            failed[m] = set(['missing'])
+            failed.setdefault(m, set(['missing']))
             continue
         answers = [world.get('src', {}).get('%s%d' % (m, s), 'ok' if s == 0 else 'notfound') for s in range(nsrc)]
-        holder = None
+        accepted = False
         for s, a in enumerate(answers):
-            if a == 'ok':
-                holder = s
-                break
-        if holder is None:
-            failed[m] = set(['missing', 'failed']) if 'error' in answers else set(['missing'])
-            continue
-        mods = file_modules(world, m)
-        if mods is None:
-            failed[m] = set(['failed'])
-            continue
-        if not mods:
-            failed[m] = set(['missing', 'failed'])   # a file without any module: the name must still be accounted for
-            continue
-        kind = world.get('text', {}).get(m, 'healthy')
-        if kind in ('dupsym', 'unktype') or (len(mods) == 1 and mods[0] in world.get('symerr', [])):
-            # a file with one module whose symbol table cannot be built: the failure goes under the name asked for
-            failed[m] = set(['failed'])
-            broken_imports[m] = list(imports.get(m, []))
-            continue
-        bad = [c for c in mods if c in world.get('symerr', [])]
-        for c in bad:
-            # one broken module of a file with several: reported under its own name, the others go on
-            # (a sound copy of it known already makes the broken duplicate irrelevant)
-            if c not in parsed:
-                failed[c] = set(['failed'])
-                if c == mods[0]:
-                    broken_imports[c] = list(imports.get(m, []))   # (the first module of a file carries m's import edges)
-        owner = mods[0]   # the module of the file that carries the import edges of m
-        mods = [c for c in mods if c not in bad]
-        for c in mods:
-            parsed[c] = m
-            order.append(c)
-            failed.pop(c, None)   # a name that could not be found as a file turned up as a module of another file
-            if m in requested or c in requested:
-                requested_canon.add(c)
-        if m not in mods and m not in requested and m not in failed:
-            # m is known from an IMPORTS clause only, so it names a MODULE; the file that answers to the name holds
-            # modules called differently: the module m does not exist
+            if a == 'error':
+                # a failure of this source; the later ones are still asked
+                failed[m] = set(['failed', 'missing'])
+                continue
+            if a != 'ok':
+                continue
+            ents = file_entries(world, s, m)
+            if ents is None:
+                failed[m] = set(['failed'])      # does not parse: a later source may do better
+                continue
+            if not ents:
+                failed.setdefault(m, set(['missing', 'failed']))   # a file without any module: as good as not found
+                continue
+            if len(ents) == 1 and not ents[0][1]:
+                # a file with one module whose symbol table cannot be built: the failure goes under the name asked for
+                failed[m] = set(['failed'])
+                broken_imports[m] = list(imports.get(m, []))
+                continue
+            broken_here = set()
+            for c, ok, var in ents:
+                if c in parsed:
+                    continue     # the copy that came first stays (sound or not, a further copy changes nothing)
+                if not ok:
+                    failed[c] = set(['failed'])
+                    broken_here.add(c)
+                    base = c if c in users else None
+                    if base:
+                        broken_imports[c] = list(imports.get(base, []))
+                    if m in requested:
+                        requested_canon.add(c)   # part of a requested file, like its sound modules
+                    continue
+                parsed[c] = m
+                variant_of[c] = var
+                kind_of[c] = text_kind(world, s, m)
+                order.append(c)
+                failed.pop(c, None)   # could not be had before (asked for by name, or a broken copy precedes this one)
+                broken_here.discard(c)
+                broken_imports.pop(c, None)
+                if m in failed and m not in broken_here:
+                    del failed[m]     # an earlier source failed on this name, this one did not
+                if m in requested or c in requested:
+                    requested_canon.add(c)
+                if c in users:
+                    todo.extend(imports.get(c, []))
+                elif c.endswith('REAL') and c[:-4] in users:
+                    todo.extend(imports.get(c[:-4], []))
+            if m in broken_here:
+                continue      # the module asked for is the broken one of this file: a later source may have a sound copy
+            if m not in requested and m not in parsed:
+                # m is known from an IMPORTS clause only, so it names a MODULE; this file holds modules called differently
+                continue
+            accepted = True
+            break
+        if not accepted and m not in failed and m not in parsed:
             failed[m] = set(['missing'])
-        if owner in mods:
-            todo.extend(imports.get(m, []))
 
     ref = {'allowed': {}, 'writes': {}, 'payload': {}, 'gen': set(), 'nogen': set()}
     built = []
@@ -436,7 +528,7 @@ def reference(world):
             b not in parsed and (b == used_import or (b == base and c != base)) for b in out_edges)
         # (a module filed under another name that imports "itself" by the file name imports a module that does not exist,
         # and the imported symbol collides with its own)
-        if cascade or c in world.get('generr', []) or (world.get('text', {}).get(base) in ('badimport', 'badrange') and c == base):
+        if cascade or c in world.get('generr', []) or (kind_of.get(c) in ('badimport', 'badrange') and c == base):
             failed[c] = set(['failed'])
             ref['gen'].add(c)
             continue
@@ -455,7 +547,7 @@ def reference(world):
         for i, b in enumerate(world.get('borrowers', [])):
             if bool(b.get('texts', False)) != bool(opts['genTexts']):
                 continue
-            if b.get('ans', {}).get(m, 'absent') == 'has':
+            if b.get('ans', {}).get(m, 'absent') in ('has', 'hasempty'):
                 got = i
                 break
         if got is None:
@@ -492,6 +584,7 @@ def reference(world):
     ref['closure'] = seen
     ref['parsed'] = parsed
     ref['requested_canon'] = requested_canon
+    ref['variant_of'] = variant_of
     return ref
 
 
@@ -502,7 +595,7 @@ def features(world):
     for m, k in sorted(world.get('text', {}).items()):
         if k != 'healthy':
             f.append(k)
-    for key, tag in (('symerr', 'symerr'), ('generr', 'generr'), ('wrerr', 'wrerr')):
+    for key, tag in (('symerr', 'symerr'), ('generr', 'generr'), ('wrerr', 'wrerr'), ('emptygen', 'emptygen')):
         if world.get(key):
             f.append(tag)
     for k, a in sorted(world.get('src', {}).items()):
@@ -578,7 +671,10 @@ def judge(world, obs, sigbase, step_budget_factor=10):
         data = ws[0][2]
         want = obs['produced'].get(m)
         if res.get(m) == 'borrowed' or (want is None and data.startswith('BORROWED-')):
-            if not data.startswith('BORROWED-') or not data.endswith('-' + m):
+            empties = [b for b in world.get('borrowers', []) if b.get('ans', {}).get(m) == 'hasempty']
+            if data == '' and empties:
+                pass
+            elif not data.startswith('BORROWED-') or not data.endswith('-' + m):
                 v('borrowed-payload-not-verbatim', '%s: %r' % (m, data[:80]))
         elif data != want:
             v('payload-not-what-codegen-produced', '%s: written %r..., generated %r...' % (m, data[:60], (want or '')[:60]))
@@ -614,7 +710,8 @@ def judge(world, obs, sigbase, step_budget_factor=10):
         if w in ('once', 'attempt') and nw != 1:
             v('not-handed-to-writer', '%s: %d putData calls' % (k, nw))
     for k, (how, arg) in ref['payload'].items():
-        if how == 'borrow' and k in writes and writes[k][0][2] != 'BORROWED-%d-%s' % (arg, k):
+        if how == 'borrow' and k in writes and writes[k][0][2] != (
+                '' if world['borrowers'][arg].get('ans', {}).get(k) == 'hasempty' else 'BORROWED-%d-%s' % (arg, k)):
             v('borrowed-from-wrong-borrower', '%s: %r, expected borrower %d' % (k, writes[k][0][2], arg))
     gens = [e[1] for e in log if e[0] == 'codegen']
     for k in ref['nogen']:
